@@ -54,7 +54,9 @@ TRANSLATORS = {
            "coq/lib/PyReqInput.v (CachedInput.__init__, Request.input / read "
            "/ data / read_chunk -> gen/ReqInputGen.v)",
     "C11": _T + "harness/py2v_digest.py + coq/lib/PyDigest.v (check_response,"
-           " check_credentials, check_digest handler -> gen/DigestGen.v)",
+           " check_credentials, check_digest handler -> gen/DigestGen.v); "
+           "harness/py2v_challenge.py + coq/lib/PyChallenge.v "
+           "(results.unauthorized -> gen/ChallengeGen.v)",
     "C13": _T + "harness/py2v_hidden.py + coq/lib/PyBytes.v (session.hidden "
            "-> gen/HiddenGen.v); harness/py2v_session.py + "
            "coq/lib/PySession.v (PoorSession.write/destroy/load/header -> "
